@@ -276,7 +276,8 @@ pub fn cache_trace(output: &str, dir: &str, seed: u64, thorough: bool) -> Value 
 					for _ in 0..per_task {
 						// a stored tile, or an absent coordinate inside a stored block
 						let base = tiles[r.below(tiles.len() as u64) as usize];
-						let (z, x, y) = if r.chance(1, 4) { (base.0, base.1 ^ 1, base.2) } else { (base.0, base.1, base.2) };
+						// (level 10 only: there the blocks' coverage is the whole block, so the neighbour is inside a stored block)
+						let (z, x, y) = if base.0 == 10 && r.chance(1, 4) { (base.0, base.1 ^ 1, base.2) } else { (base.0, base.1, base.2) };
 						let blk = if z == 10 { (10u8, x / 256, y / 256) } else { (3u8, 0, 0) };
 						verif_trace::emit_raw(format!("{{\"ev\":\"Start\",\"task\":{},\"block\":[{},{},{}],\"tile\":[{z},{x},{y}]}}", t + 1, blk.0, blk.1, blk.2));
 						let got: i64 = match reader.get_tile_data(&TileCoord3::new(x, y, z).unwrap()).await {
